@@ -260,8 +260,8 @@ func (st *State) specIdent(name string, env *specEnv) Value {
 		return v
 	}
 	if g, ok := st.eng.cs.Ghosts[name]; ok {
-		_, s := st.resolveSpecType(g.Type, env)
-		return Value{S: s, Term: st.heapGet(env.heap, "ghost_"+name, s), T: st.ghostGoType(g, env)}
+		T, s := st.ghostType(g)
+		return Value{S: s, Term: st.heapGet(env.heap, "ghost_"+name, s), T: T}
 	}
 	if env.pkg != nil {
 		return st.specPkgMember(env.pkg, name, env)
@@ -271,9 +271,13 @@ func (st *State) specIdent(name string, env *specEnv) Value {
 	return Value{}
 }
 
-func (st *State) ghostGoType(g *GhostVar, env *specEnv) types.Type {
-	T, _ := st.resolveSpecType(g.Type, env)
-	return T
+// ghostType resolves a ghost variable's declared type in the package it was declared in.
+func (st *State) ghostType(g *GhostVar) (types.Type, Sort) {
+	env := &specEnv{st: st}
+	if sp := st.eng.ssaPkg(g.Pkg); sp != nil {
+		env.pkg = sp.Pkg
+	}
+	return st.resolveSpecType(g.Type, env)
 }
 
 func (st *State) specPkgMember(pkg *types.Package, name string, env *specEnv) Value {
